@@ -21,7 +21,8 @@ func init() {
 			"R3 the start-after cursor passed to the backend's Repositories is derived from the prefix (translated into the backend namespace), not the caller's raw cursor; " +
 			"R4 the listing yields only the stripped result of strings.CutPrefix(name, prefix+\"/\") under ok == true (or passes errors through); " +
 			"R5 ctxMap rewrites the Resource of repository-typed scopes with nameMap and installs the rewritten scope in the returned context. " +
-			"R0b the wrapper built by Sub holds exactly the registry and the prefix it was given.",
+			"R0b the wrapper built by Sub holds exactly the registry and the prefix it was given. " +
+			"R6 the Repositories iterator is re-runnable (as C05.R6).",
 		NotDecided: "equality of behaviour with the restricted registry on values (e.g. which items a listing contains) is not decided; R2's confinement clause (no name escapes the prefix) is decided for the code as written.",
 		Technique:  "static analysis: SSA argument provenance per Interface method, backward slice of the name-mapping function, dominance of the CutPrefix ok-test",
 	})
